@@ -14,6 +14,8 @@ import (
 	"github.com/ethereum/go-ethereum/core/vm"
 	"github.com/ethereum/go-ethereum/crypto"
 
+	cpcabi "github.com/EscanBE/evermint/v12/x/cpc/abi"
+
 	"verifharness/vh"
 )
 
@@ -53,6 +55,7 @@ func Ledger(run *vh.Run, which string) {
 		run.Rule = "Generated Ethereum transactions (transfers, calls to generated contracts, creates; all fee shapes; gas limits from intrinsic-1 to far above gas used; values up to and above balance; invalid nonces/fees) in multi-tx blocks on the real app; at every tx boundary the observer records total supply of every denom, balances of all tracked accounts, fee collector and EVM module account. Non-trivial = distinct (tx kind x outcome class x fee kind x block-gas variant) with unused gas > 0 or a deletion."
 		run.Floor("eth transactions that reached execution", run.Get("tx_executed"), int64(run.N(300, 5000)))
 		run.Floor("transactions with unused gas", run.Get("tx_with_unused_gas"), int64(run.N(150, 2500)))
+		run.Floor("contracts drained through the native ERC-20 precompile and then self-destructed", run.Get("drain_through_precompile_then_selfdestruct_scenarios"), int64(run.N(20, 400)))
 		run.Floor("outcome classes", int64(run.DistinctN("outcome")), 6)
 	} else {
 		run.Rule = "Same generated workload as C04; per admitted Ethereum transaction the sender's balance delta is compared with receipt gas used x independently recomputed effective price + value moved; rejected transactions must have an empty write set; gas used within [intrinsic, limit]; consensus GasUsed == receipt gas used; cumulative gas == running sum. Non-trivial = distinct (tx type x fee kind x outcome class)."
@@ -83,7 +86,7 @@ func ledgerWorld(run *vh.Run, which, label string, wi int, v ledgerCase, nBlocks
 	for _, name := range []string{"evm", "evm", authtypes.FeeCollectorName, "distribution", "gov", "cpc", "bonded_tokens_pool"} {
 		pool = append(pool, common.BytesToAddress(authtypes.NewModuleAddress(name)))
 	}
-	w := vh.NewWorld(r, vh.WorldOpts{Chain: vh.Config{Seed: r.U64(), NumVals: 1 + wi%3, MaxGas: v.MaxGas, BaseFee: big.NewInt(v.BaseFee), Accounts: orphanAccs}, NumEOA: 6,
+	w := vh.NewWorld(r, vh.WorldOpts{Chain: vh.Config{Seed: r.U64(), NumVals: 1 + wi%3, MaxGas: v.MaxGas, BaseFee: big.NewInt(v.BaseFee), Accounts: orphanAccs, Erc20Native: true}, NumEOA: 6,
 		Prog: vh.ProgOpts{MaxLen: 7, Depth: 2}, ExtraPool: pool})
 	defer w.C.Cleanup()
 	// half of the EOAs never receive value from generated programs (C05 senders): keep them out of the pool
@@ -110,6 +113,25 @@ func ledgerWorld(run *vh.Run, which, label string, wi int, v ledgerCase, nBlocks
 			w.RunPlans(sc.Deploy, nil, check)
 			w.RunPlans([]*vh.TxPlan{sc.Fire(w, pure[(b+1)%len(pure)])}, nil, check)
 			run.Count("repeat_destroy_scenarios", 1)
+		}
+		if b%15 == 11 {
+			// a contract reads its own balance, moves all of it away through the native-coin ERC-20 precompile (x/bank moves
+			// the coins, not the StateDB) and then self-destructs toward a third address: nobody may be credited twice
+			if erc20 := w.C.App.CPCKeeper.GetErc20CustomPrecompiledContractAddressByMinDenom(w.C.QueryCtx(), vh.Denom); erc20 != nil {
+				owner := pure[b%len(pure)]
+				x, ben := common.BytesToAddress(r.Bytes(20)), common.BytesToAddress(r.Bytes(20))
+				a := vh.NewAsm()
+				a.MStoreBytes(0, cpcabi.Erc20CpcInfo.ABI.Methods["transfer"].ID)
+				a.PushAddr(x).PushU(4).Op(vm.MSTORE)
+				a.Op(vm.SELFBALANCE).PushU(36).Op(vm.MSTORE)
+				a.CallMem(vh.CALL, *erc20, nil, 0, 0, 68, 0, 0).Op(vm.POP)
+				a.PushAddr(ben).Op(vm.SELFDESTRUCT)
+				drainer := crypto.CreateAddress(owner.Addr, w.C.Nonce(owner.Addr))
+				w.Track = append(w.Track, x, ben, drainer)
+				w.RunPlans([]*vh.TxPlan{w.PlanEth(owner, nil, big.NewInt(int64(1+r.Intn(1000))*1e12), capGasOf(v.MaxGas, 600_000), vh.Deployer(a.Bytes()), "ok", nil)}, nil, check)
+				w.RunPlans([]*vh.TxPlan{w.PlanEth(pure[(b+1)%len(pure)], &drainer, nil, capGasOf(v.MaxGas, 600_000), nil, "ok", nil)}, nil, check)
+				run.Count("drain_through_precompile_then_selfdestruct_scenarios", 1)
+			}
 		}
 	}
 	refundCapLeg(run, which, label, w, r, pure, check, v.MaxGas)
@@ -182,6 +204,13 @@ func minGasPriceLeg(run *vh.Run, which, label string, k int) {
 			}
 		}
 	}
+}
+
+func capGasOf(maxGas int64, g uint64) uint64 {
+	if maxGas > 0 && g > uint64(maxGas) {
+		return uint64(maxGas)
+	}
+	return g
 }
 
 // refundCapLeg: storage-clearing transactions with gas limits far above the gas consumed, against an exact
